@@ -91,7 +91,8 @@ HCallsFor(s, h) ==
     \cup {[C0 EXCEPT !.op = "ftruncate", !.h = h, !.n = n] : n \in {-1, 0, 1, sz + 2}}
     \cup {[C0 EXCEPT !.op = o, !.h = h] : o \in {"fstat", "fsync", "close", "fchdir"}}
     \cup {[C0 EXCEPT !.op = "fchmod", !.h = h, !.perm = 384]}
-    \cup {[C0 EXCEPT !.op = o, !.h = h, !.n = n] : o \in {"freaddir", "freaddirnames"}, n \in {-1, 0, 1, 2}}
+    \* (1000000 stands for the largest int: the driver passes math.MaxInt)
+    \cup {[C0 EXCEPT !.op = o, !.h = h, !.n = n] : o \in {"freaddir", "freaddirnames"}, n \in {-1, 0, 1, 2, 1000000}}
 
 HandleProfileCalls(s) ==
     (IF Len(s.h) < MaxH
@@ -107,6 +108,22 @@ HandleProfileCalls(s) ==
           [C0 EXCEPT !.op = "link", !.p = FA, !.q = FB], [C0 EXCEPT !.op = "remove", !.p = FA],
           [C0 EXCEPT !.op = "remove", !.p = FB], [C0 EXCEPT !.op = "writefile", !.p = FA, !.data = <<1, 1, 1>>, !.perm = 420],
           [C0 EXCEPT !.op = "readfile", !.p = FA], [C0 EXCEPT !.op = "readfile", !.p = FB]}
+
+(***************************************************************************)
+(* Profile "dirh" (C02): directory handles over a directory with three     *)
+(* entries - batches of every size incl. the largest int, two cursors,     *)
+(* rewinds, entries coming and going between two batches.                  *)
+(***************************************************************************)
+DirhHist == <<[C0 EXCEPT !.op = "writefile", !.p = FA, !.data = <<1>>, !.perm = 420],
+              [C0 EXCEPT !.op = "writefile", !.p = FB, !.data = <<2>>, !.perm = 420],
+              [C0 EXCEPT !.op = "mkdir", !.p = AbsP(<<"w", "d">>), !.perm = 493]>>
+DirhCalls(s) ==
+    (IF Len(s.h) < 2 THEN {[C0 EXCEPT !.op = "open", !.p = WorkP, !.flag = <<"RDONLY">>]} ELSE {})
+    \cup {[C0 EXCEPT !.op = o, !.h = h, !.n = n] : o \in {"freaddir", "freaddirnames"}, h \in DOMAIN s.h, n \in {-1, 0, 1, 2, 1000000}}
+    \cup {[C0 EXCEPT !.op = "seek", !.h = h, !.off = 0, !.wh = 0] : h \in DOMAIN s.h}
+    \cup {[C0 EXCEPT !.op = "close", !.h = h] : h \in DOMAIN s.h}
+    \cup {[C0 EXCEPT !.op = "writefile", !.p = AbsP(<<"w", "c">>), !.data = <<3>>, !.perm = 420],
+          [C0 EXCEPT !.op = "remove", !.p = FA], [C0 EXCEPT !.op = "remove", !.p = FB]}
 
 FirstName == CHOOSE a \in Names : TRUE
 FirstNameOf == CHOOSE a \in Names : \A b \in Names : RankOf(a) <= RankOf(b)
@@ -306,10 +323,11 @@ Calls(s) ==
                  [] Profile = "enum" -> (IF Len(hist) < MaxLen - 1 THEN EnumBuild ELSE {}) \cup (IF Len(hist) >= 1 THEN EnumCalls ELSE {})
                  [] Profile = "symq" -> SymQCalls
                  [] Profile = "symchain" -> ChainCalls
+                 [] Profile = "dirh" -> DirhCalls(s)
                  [] Profile = "perm1" -> Perm1Calls
                  [] Profile = "perm2" -> Perm2Calls
                  [] OTHER -> NsCalls IN
-    IF Profile \in {"symq", "symchain", "enum", "perm1", "perm2"} THEN all ELSE {c \in all : ~Pruned(s, c)}
+    IF Profile \in {"symq", "symchain", "enum", "perm1", "perm2", "dirh"} THEN all ELSE {c \in all : ~Pruned(s, c)}
 
 EdgeFile == IF "VERIF_EDGES" \in DOMAIN IOEnv THEN IOEnv.VERIF_EDGES ELSE ""
 GenImpl == IF "VERIF_IMPL" \in DOMAIN IOEnv THEN IOEnv.VERIF_IMPL ELSE "none"
@@ -334,6 +352,7 @@ Init ==
     /\ CASE Profile = "symq" -> \E g \in Graphs : hist = GraphHist(g) /\ st = RunCalls(InitSt, GraphHist(g))
          [] Profile = "nsseed" -> \E hh \in SeedHists : hist = hh /\ st = RunCalls(InitSt, hh)
          [] Profile = "symchain" -> \E n \in ChainLens : hist = ChainHist(n) /\ st = RunCalls(InitSt, ChainHist(n))
+         [] Profile = "dirh" -> hist = DirhHist /\ st = RunCalls(InitSt, DirhHist)
          [] Profile \in {"perm1", "perm2"} -> \E cfg \in PermCfgs : hist = PermHist(cfg) /\ st = RunCalls(InitSt, PermHist(cfg))
          [] OTHER -> st = InitFor /\ hist = <<>>
 
@@ -346,6 +365,7 @@ EmitHist == IF Profile = "handles" THEN <<[C0 EXCEPT !.op = "writefile", !.p = F
 Next ==
     /\ (IF Profile \in {"symq", "symchain", "perm1", "perm2"} THEN last.call.op = ""
         ELSE IF Profile = "nsseed" THEN Len(hist) < MaxLen + 5 /\ (last.call.op = "" \/ Len(hist) < 4 + MaxLen)
+        ELSE IF Profile = "dirh" THEN Len(hist) < MaxLen + 3
         ELSE Len(hist) < MaxLen)
     /\ \E c \in Calls(st) :
         LET o == Apply(st, c) IN
